@@ -1082,6 +1082,21 @@ def stream_cases(rng):
     reps = rng.choice([0, 0, 1, 2, 3])
     ax = rng.randint(-len(shape), len(shape) - 1)
     yield "repeat", (lambda: xp.repeat(arr(shape, ch), reps, axis=ax)), {"op": "repeat", "shape": shape, "chunks": ch, "repeats": reps, "axis": ax}, {}
+    # one-to-one movement ops on a ragged grid: several chunks along the axis, last chunk of 2 or 3 elements
+    rem = rng.choice([2, 3])
+    cr = rng.randint(rem + 1, 5)
+    nr = cr * rng.randint(1, 3) + rem
+    if rng.random() < 0.5:
+        rshape, rch, rax = [nr], [cr], 0
+    else:
+        other = rng.randint(2, 5)
+        rax = rng.randint(0, 1)
+        rshape = [other, other]; rshape[rax] = nr
+        rch = [rng.randint(1, other)] * 2; rch[rax] = cr
+    rr = rng.choice([2, 3, 4])
+    which = rng.choice(["repeat", "repeat", "take", "unstack", "roll", "flip", "concat", "stack", "expand_dims", "tile"])
+    rcase = {"op": which, "shape": rshape, "chunks": rch, "axis": rax, "k": rr}
+    yield "ragged:" + which, (lambda: ragged_op(which, rshape, rch, rax, rr)[0]), rcase, {}
     # qr over all tall / wide / short-chunk layouts
     m, ncol = rng.randint(1, 9), rng.randint(1, 5)
     rc = rng.randint(1, m)
@@ -1152,6 +1167,82 @@ def oracle_legacy(ctx, n):
         build = lambda: getattr(xp, fn)(xp.negative(arr(shape, ch, "float64")), axis=axis)  # noqa: E731
         check_case(ctx, "legacy", build, {"op": "%s(negative(x))" % fn, "shape": shape, "chunks": ch, "axis": axis},
                    configs=["simple", "fuse_all"], execs=("single",))
+
+
+def ragged_op(which, shape, chunks, axis, k):
+    """-> (cubed result(s), NumPy reference(s)) of a one-to-one movement op along `axis`."""
+    import numpy as np
+
+    import cubed.array_api as xp
+    x = arr(shape, chunks)
+    a = np.arange(int(np.prod(shape)), dtype="int64").reshape(tuple(shape))
+    n = shape[axis]
+    if which == "repeat":
+        return xp.repeat(x, k, axis=axis), np.repeat(a, k, axis=axis)
+    if which == "take":
+        idx = [(i * k + 1) % n for i in range(n + 1)]
+        return xp.take(x, xp.asarray(np.array(idx), spec=spec()), axis=axis), np.take(a, idx, axis=axis)
+    if which == "unstack":
+        return list(xp.unstack(x, axis=axis)), [np.take(a, i, axis=axis) for i in range(n)]
+    if which == "roll":
+        return xp.roll(x, k, axis=axis), np.roll(a, k, axis=axis)
+    if which == "flip":
+        return xp.flip(x, axis=axis), np.flip(a, axis=axis)
+    if which == "concat":
+        return xp.concat([x] * k, axis=axis), np.concatenate([a] * k, axis=axis)
+    if which == "stack":
+        return xp.stack([x] * k, axis=axis), np.stack([a] * k, axis=axis)
+    if which == "expand_dims":
+        return xp.expand_dims(x, axis=axis), np.expand_dims(a, axis=axis)
+    if which == "tile":
+        reps = [1] * len(shape); reps[axis] = k
+        return xp.tile(x, tuple(reps)), np.tile(a, tuple(reps))
+    raise ValueError(which)
+
+
+RAGGED_GEOMS = [([5], [3], 0), ([7], [4], 0), ([11], [4], 0), ([4, 5], [2, 3], 1), ([7, 3], [4, 2], 0)]
+
+
+def oracle_ragged(ctx):
+    """Fixed must-hold cases: accepted one-to-one movement ops on grids with a ragged last chunk of 2 or 3 elements
+    complete (single-threaded, default optimizer) with NumPy's values."""
+    import numpy as np
+    cases = []
+    for shape, chunks, axis in RAGGED_GEOMS:
+        for k in (2, 3, 4):
+            cases.append(("repeat", shape, chunks, axis, k))
+        for which in ("take", "unstack", "roll", "flip", "concat", "stack", "expand_dims", "tile"):
+            cases.append((which, shape, chunks, axis, 2))
+    for which, shape, chunks, axis, k in cases:
+        case = {"op": which, "shape": shape, "chunks": chunks, "axis": axis, "k": k}
+        holder = {}
+
+        def build(holder=holder):
+            res, ref = ragged_op(which, shape, chunks, axis, k)
+            holder["ref"] = ref
+            return res
+        phase, e = run_phases(build, optimizers()["default"])
+        v = verdict(phase, e)
+        ctx.count({"ragged": case}, nontrivial=True, kind="oracle:ragged:%s:%s" % (which, "done" if e is None else phase))
+        if e is not None:
+            # a refusal at build would be allowed by the property, but these layouts are supported: report any exception
+            ctx.fail(v or "%s raised during %s: %s" % (type(e).__name__, phase, str(e)[:120]),
+                     dict(case=case, config="default", executor="single", phase=phase, exception=type(e).__name__, site=site_of(e)))
+            continue
+        try:
+            with warnings.catch_warnings():
+                warnings.simplefilter("ignore")
+                res = build()
+                outs = res if isinstance(res, list) else [res]
+                refs = holder["ref"] if isinstance(holder["ref"], list) else [holder["ref"]]
+                import cubed
+                vals = cubed.compute(*outs)
+            for val, ref in zip(vals, refs):
+                if np.shape(val) != np.shape(ref) or not np.array_equal(val, ref):
+                    ctx.fail("accepted %s completes with values %s, NumPy gives %s" % (which, np.asarray(val).tolist(), np.asarray(ref).tolist()), dict(case=case))
+                    break
+        except Exception as ee:  # noqa: BLE001
+            ctx.fail("%s raised while computing: %s" % (type(ee).__name__, str(ee)[:120]), dict(case=case, phase="execute", exception=type(ee).__name__))
 
 
 def oracle_regressions(ctx):
@@ -1289,6 +1380,7 @@ def oracle(ctx):
     common.use_repo()
     import exprgen
     oracle_witnesses(ctx)
+    oracle_ragged(ctx)
     nprog = ctx.budget(60, 350)
     for i in range(nprog):
         prog = exprgen.gen_program(ctx.rng, max_depth=ctx.rng.choice([1, 2, 3, 4]), max_elems=600, max_blocks=40)
